@@ -160,7 +160,14 @@ class C13(Prop):
                                                                     [rng.choice(b.points), -0.5]]})
                     evals.append({"op": "eval", "h": nx})
                     held.append(nx)
-            rounds.append({"edit": edit, "failing": failing, "solve": s, "evals": evals})
+            fail_evals = []
+            if failing is not None and not failing.get("crash") and held:
+                # what the user reads right after the solve that found no value: never numbers of an earlier solve
+                for h in rng.sample(held, min(len(held), 3)):
+                    fail_evals.append({"op": "eval", "h": h})
+                for c in [h for h in held if h in b.conlist][:2]:
+                    fail_evals.append({"op": "eval_dual", "h": c})
+            rounds.append({"edit": edit, "failing": failing, "fail_evals": fail_evals, "solve": s, "evals": evals})
         return {"model": model, "rounds": rounds, "mode": mode,
                 "tag": "%s/%s/r%d/%s" % (b.info.get("template"), b.info.get("cls"), nr, mode),
                 "opts": {"oracles": ["fresh", "attr", "cert", "attr_primal", "delivery"]}}
@@ -172,6 +179,7 @@ class C13(Prop):
             ops += rd["edit"]
             if rd.get("failing"):
                 ops.append(rd["failing"])
+                ops += rd.get("fail_evals") or []
             marks.append(len(ops))
             ops.append(rd["solve"])
             ops += rd["evals"]
@@ -197,6 +205,7 @@ class C13(Prop):
             if rd.get("failing"):
                 c = copy.deepcopy(plan)
                 c["rounds"][r]["failing"] = None
+                c["rounds"][r]["fail_evals"] = []
                 yield c
             if rd["evals"]:
                 c = copy.deepcopy(plan)
@@ -235,6 +244,16 @@ class C13(Prop):
         for r, (rd, mi) in enumerate(zip(plan["rounds"], marks)):
             if rd.get("failing") and rd["failing"].get("crash"):
                 crashed = True      # a solve of this object was abandoned at an arbitrary line
+            nfe = len(rd.get("fail_evals") or [])
+            if nfe and mi - nfe - 1 >= 0 and mi <= len(outs):
+                fo = outs[mi - nfe - 1]
+                failed = fo.get("status") == "exc" or fo.get("value") is None
+                if failed and fo.get("ncalls", 0) == 1:      # the solver was reached and found no value
+                    for op_, o_ in zip(rd["fail_evals"], outs[mi - nfe:mi]):
+                        if o_.get("status") == "ok" and not o_.get("leafless"):
+                            viol.append({"oracle": "C13/fresh", "signature": "%s-returns-numbers-of-an-earlier-solve-after-a-solve-that-found-no-value" % op_["op"],
+                                         "detail": {"round": r, "h": op_["h"], "failing": fo.get("exc_type") or "None"}})
+                            break
             if mi >= len(outs):
                 break
             x = outs[mi]
